@@ -73,6 +73,11 @@ def run(chk, tier):
     import scanzero
     nsz = scanzero.run(chk, P, ["distances.c", "memattrs.c", "cpukinds.c"])
     chk.floor("R-SCANZERO", "loops over caller-supplied arrays", nsz, 3)
+    chk.rule("R-COMPACTALL", "a helper that compacts several parallel arrays (discovered: >= 3 pointer parameters each with an element move `P[i] = P[j]`) moves elements inside every one of them "
+             "when all are present (explored with every pointer argument non-NULL): no two compactions are exclusive")
+    import compactall
+    nca = compactall.run(chk, P, ["distances.c"])
+    chk.floor("R-COMPACTALL", "parallel arrays of compaction helpers", nca, 3)
     chk.decided += ['the validation of the objects handed to hwloc_distances_add_values() covers every slot (a NULL object is rejected wherever it is)',
                     'arrays handed to a function that takes ownership of them (hwloc_internal_distances_add: attached on success, freed on failure) are not freed again by the caller',
                     'objs, indexes, different_types and values are compacted together when objects disappear',
